@@ -35,7 +35,11 @@ def accepted_alone(binary, lines, mask="211"):
     """assemble each line alone on a fresh instance; returns dict line -> hex bytes for accepted ones"""
     res = common.run_lines(binary, [(mask, l, 0) for l in lines], tag="alone")
     out = {}
+    v = common.CURRENT[0]
     for l, r in zip(lines, res):
         if "crash" not in r and r["rc"] == 0:
             out[l] = r["bytes"]
+        elif "crash" in r and v is not None:
+            # a line that crashes or hangs when assembled alone is a violation of whatever property is being checked
+            v.violation({"key": "alone[%s]: %r" % (mask, l), "fam": "alone", "text": l, "combo": mask}, r["crash"]["sig"], r["crash"].get("stderr", "")[-800:])
     return out
